@@ -395,7 +395,8 @@ func checkC07(e *core.Env) {
 
 	// ---- server side ----
 	serve := func(body []byte, end error) (hr []Event, herr error, returned bool, code int, trailers int, pan string, alloc uint64) {
-		sc := &Script{Kind: ClientStream, Handler: []Op{{Op: "recvall"}, {Op: "send", Msg: &tpb.Message{Payload: []byte("resp")}}}}
+		// (the handler receives every message into one and the same message value)
+		sc := &Script{Kind: ClientStream, ReuseDest: true, Handler: []Op{{Op: "recvall"}, {Op: "send", Msg: &tpb.Message{Payload: []byte("resp")}}}}
 		run := svc.NewRun(sc, "http-direct")
 		defer svc.Forget(run)
 		req := httptest.NewRequest("POST", ClientStream.Method(), &cutBody{data: body, endErr: end})
@@ -423,6 +424,9 @@ func checkC07(e *core.Env) {
 			m := genMsg(r, fmt.Sprintf("c07s-%d-%d", i, k), false)
 			if len(m.Payload) > 100 {
 				m.Payload = m.Payload[:100]
+			}
+			if k > 0 && r.Intn(3) == 0 {
+				m = &tpb.Message{} // a frame of length zero between others
 			}
 			msgs = append(msgs, m)
 		}
